@@ -99,6 +99,67 @@ func init() {
 		Assumptions: []string{"event-prefix form: the state after any prefix of the event log is what a crash at that point leaves behind"},
 	})
 	reg(&Property{
+		ID: "C08",
+		Instances: func(tier string) []Instance {
+			small := func(i Instance) Instance { i.MaxAlloc = 8; return i }
+			out := []Instance{
+				small(inst("internal/sender", "HHostileFilter", "L", 9, "nameLen", 1)),
+				small(inst("internal/sender", "HHostileRequests", "L", 8, "n", 2, "dry", 0)),
+				small(inst("internal/sender", "HHostileRequests", "L", 28, "n", 2, "dry", 0)),
+				small(inst("internal/sender", "HHostileRequests", "L", 28, "n", 0, "dry", 0)),
+				small(inst("internal/sender", "HHostileRequests", "L", 12, "n", 1, "dry", 1)),
+				small(inst("internal/receiver", "HHostileEntry", "L", 7, "last", 1)),
+				small(inst("internal/receiver", "HHostileFlist", "L", 6)),
+				small(inst("internal/receiver", "HHostileIdList", "L", 10)),
+				small(inst("internal/receiver", "HHostileRecvFiles", "L", 8)),
+				small(inst("internal/receiver", "HHostileRecvFiles", "L", 28)),
+				small(inst("internal/rsyncwire", "HHostileMux", "L", 10)),
+			}
+			if tier == "thorough" {
+				out = append(out,
+					small(inst("internal/sender", "HHostileFilter", "L", 10, "nameLen", 2)),
+					small(inst("internal/sender", "HHostileRequests", "L", 48, "n", 3, "dry", 0)),
+					small(inst("internal/receiver", "HHostileEntry", "L", 9, "last", 1)),
+					small(inst("internal/receiver", "HHostileFlist", "L", 8)),
+					small(inst("internal/receiver", "HHostileIdList", "L", 16)),
+					small(inst("internal/receiver", "HHostileRecvFiles", "L", 36)),
+					small(inst("internal/rsyncwire", "HHostileMux", "L", 14)),
+				)
+			}
+			return out
+		},
+		MustReach: []string{"error", "ok"},
+		Redirects: sym.VfsRedirects(),
+		Bounds:    "each parser of peer bytes is fed an arbitrary byte string of the instance's length L (all 256^L values, including truncation = end of input anywhere); count-like fields are explored up to 8 after their sign check",
+		Outside:   "declared sizes above 8 (quick) after the sign check; buffers longer than L; stalls and resource exhaustion; the daemon's text protocol and option parser (covered by C07/C14 harnesses where built)",
+	})
+	reg(&Property{
+		ID: "C17",
+		Instances: func(tier string) []Instance {
+			out := []Instance{}
+			ks := []int{1, 2}
+			if tier == "thorough" {
+				ks = []int{1, 2, 3}
+			}
+			for _, k := range ks {
+				out = append(out, inst("internal/rsyncwire", "HMuxReader", "k", k))
+			}
+			for _, d := range []int{-1, 0, 1} {
+				out = append(out, inst("internal/rsyncwire", "HMuxBig", "delta", d))
+			}
+			for _, n := range []int{1, 99, 100, 101, 128} {
+				out = append(out, inst("internal/rsyncwire", "HMuxInfoRun", "n", n))
+			}
+			for _, l := range []int{0, 1, 3} {
+				out = append(out, inst("internal/rsyncwire", "HMuxWriter", "len", l))
+			}
+			return out
+		},
+		MustReach: []string{"data", "eof", "errorframe", "unknowntag", "accepted", "rejected", "ok"},
+		Bounds:    "reader: k frames, each with symbolic tag (data/info/error/unknown), length 0..3 and payload, consumed in chunks of symbolic size 1..4 through the real 256 KiB bufio.Reader; frames of maxMessageSize-1, maxMessageSize, maxMessageSize+1 behind 0..2 info frames; runs of up to 128 info frames; writer: payload 0..3 bytes, tags 0..2",
+		Outside:   "more than k frames per stream; payload lengths between 4 and maxMessageSize-2; server call-site payload sizes",
+	})
+	reg(&Property{
 		ID: "C15",
 		Instances: func(tier string) []Instance {
 			return []Instance{inst("internal/rsyncwire", "HInt64RoundTrip")}
